@@ -171,7 +171,7 @@ func c04Config(seed uint64, c int) (*SendScenario, []c04Pos) {
 // the last kind is a positive reply that arrives after the client's timeout (15 s) has expired
 // but before a second one would: whatever the client does about the timeout, it must not read
 // that reply as the answer to something else
-var c04Kinds = []refsmtpd.Action{{Code: 451, Text: "temporary failure"}, {Code: 550, Text: "permanent failure"}, {Kind: "drop"}, {DelayMs: 20000}}
+var c04Kinds = []refsmtpd.Action{{Code: 451, Text: "temporary failure"}, {Code: 550, Text: "permanent failure"}, {Kind: "drop"}, {DelayMs: 20000}, {StrayLine: true}}
 
 func (p *c04) Gen(seed uint64, i int, tier string) (any, bool) {
 	nCfg, nRandom := 60, 60000
@@ -229,6 +229,11 @@ func (p *c04) Gen(seed uint64, i int, tier string) (any, bool) {
 			a.Code = a.Code/100*100 + r.Intn(60)
 		}
 		sc.Server.Rules = append(sc.Server.Rules, refsmtpd.Rule{Verb: pos.verb, Nth: pos.nth, Action: a})
+	}
+	if sc.Client.AuthType != "" && r.Chance(1, 4) {
+		// a challenge the mechanism cannot continue from: the exchange has to be cancelled
+		// ("*") before anything else is said
+		sc.Server.Rules = append(sc.Server.Rules, refsmtpd.Rule{Verb: sim.Pick(r, []string{"AUTH", "AUTHRESP"}), Nth: 1, Action: refsmtpd.Action{Kind: "raw", Code: 334, Text: "b25lIG1vcmUgdGhpbmc/"}})
 	}
 	sc.Sched = sim.Derive(seed, 4, 998, uint64(idx))
 	sc.Label += "/random"
